@@ -29,6 +29,14 @@ CLAIMED = {
    "Structural necessary conditions of newest-revision lookup: last-startxref search, oldest-first revision list paired with an unconditional forward overwrite (the mirrored pair would also be accepted; anything conditional on entry content is rejected), load calls dominated by the in-use and found edges, cache writes confined to the owning function under the requested key after err == nil (a whole-module who-may-write rule), header-number cross-check dominating every successful object-stream return, and the shared-handle rule of C01.",
    "Trusted: go/ssa dominance, VTA; correctness of parsed xref fields, hybrid files and generation numbers are not decided.",
    "guard dominance (must-cross-edge) + whole-module who-may-write + loop-shape classification", "DESIGN.md §4 C04"),
+ "C06": ("other",
+   "Structural necessary conditions of 'one meaning for both parsers': exact 256-entry denotations of every character-class predicate in both parsers against ISO 32000 tables 1-2 and against each other; escape tables of both literal-string readers extracted from their switch statements and compared with ISO 32000 table 3, with the octal continuation test evaluated as a byte set; operator-start and operator-continue byte sets evaluated from the content-stream parser and checked against all ISO 32000 content operators plus every operator the extractors handle; keyword-operand and comment-terminator sets; the dominance condition of the reference lookahead.",
+   "Trusted: go/types constant evaluation, the small syntax-tree evaluator for closed byte predicates (exhaustive over 256 values), the hand-written ISO tables; round-trip equality of arbitrary trees is not decided.",
+   "exhaustive byte-class denotation (syntax-tree evaluation over the finite byte domain) + table extraction + guard dominance", "DESIGN.md §4 C06"),
+ "C07": ("other",
+   "Structural necessary conditions: all 4x256 base-encoding table entries evaluated by the type checker and compared with references built from golang.org/x/text code pages and hand-written ISO 32000 Annex D tables (documented accept sets), anchor entries of the symbolic fonts, name->object->table dispatch, decode priority and NFC by dominance on the SSA of Font.DecodeString, no unvalidated raw byte->string conversion in the text-decoding functions, range destinations decoded by the multi-unit decoder unless proven single-unit, and a bit-width rule for shifts performed before widening.",
+   "Trusted: golang.org/x/text/encoding/charmap data (module cache, independent of the repo), the hand-written Annex D tables; CMap parsing over formatting policies and code-space width selection are not decided.",
+   "exhaustive constant-table comparison + guard dominance + type-level bit-width dataflow", "DESIGN.md §4 C07"),
 }
 
 NOT_BUILT = "rules for this property are not built yet in this revision of /verif (see DESIGN.md §4 for the plan)"
